@@ -563,6 +563,16 @@ class UnitLib(Lib):
                                              ri.origin == 0 else None,
                                              ("rel", norm(rnode)
                                               if rnode is not None else "?")))
+                if isinstance(li.frame, tuple) and ri.frame == "image" and \
+                        ri.origin == 0 and li.frame[1] in (
+                            "island", "?", norm(rnode)
+                            if rnode is not None else "?"):
+                    # an index inside the cut-out MINUS the start of the
+                    # cut-out: the offset is applied in the wrong direction
+                    return res.with_(idx=Idx(
+                        li.axis, None, None,
+                        "cut-out index minus the cut-out's start (%s)" %
+                        (norm(rnode) if rnode is not None else "?")))
                 return res.with_(idx=None)
             # relative index + offset
             rel, off, offnode = (li, ri, rnode) if \
